@@ -21,53 +21,14 @@ Proof. exact st_rejected_keeps. Qed.
 Print Assumptions C48_rejected_change_keeps_all.
 
 (* 3. only known mutable settings, only parsable values.
-   [st_applied] = the entries the operation ranges over (storagesc: the merged pending map).
-   Full statement A: every one of them evaluates (names a setting and parses at its type). *)
-Definition C48_every_entry_checked_full_statement : Prop :=
+   [st_applied] = the entries the operation ranges over (storagesc: the merged pending map). Every one of them
+   names a row of the contract's table whose flag is set (Mutable for globals / settable for the contracts) or a
+   listed cost function, and parses at its type. *)
+Theorem C48_every_entry_checked_and_listed :
   forall k env s o s', st_step k env s o = (s', OutOk) ->
-    Forall (fun e => exists kv, st_eval (st_spec_of k) e = ROk kv) (st_applied k s o).
-
-(* refuted: in faucetsc/vestingsc a cost key ends the loop (`return setCostValue(...)`), so an
-   unknown key iterated after it is accepted *)
-Theorem C48_every_entry_checked_refuted : ~ C48_every_entry_checked_full_statement.
-Proof. exact sw_refute_every_entry_checked. Qed.
-Print Assumptions C48_every_entry_checked_refuted.
-
-(* Full statement B: every entry the loop reaches names a row of the contract's table whose flag is
-   set (Mutable for globals / settable for the contracts) or a listed cost function, and evaluates. *)
-Definition C48_only_listed_full_statement : Prop :=
-  forall k env s o s', st_step k env s o = (s', OutOk) ->
-    Forall (fun e => st_listedb (st_spec_of k) e = true /\ exists kv, st_eval (st_spec_of k) e = ROk kv)
-           (st_reached (st_spec_of k) (st_applied k s o)).
-
-(* refuted: minersc (and storagesc) store any key with the "cost." prefix *)
-Theorem C48_only_listed_refuted : ~ C48_only_listed_full_statement.
-Proof. exact sw_refute_only_listed. Qed.
-Print Assumptions C48_only_listed_refuted.
-
-(* partial, all contracts: every entry the loop reaches evaluates and is listed, outside exactly the
-   trigger of B (an unlisted key with the "cost." prefix in minersc/storagesc) *)
-Theorem C48_only_listed_partial :
-  forall k env s o s', st_step k env s o = (s', OutOk) ->
-    Forall (fun e => (st_listedb (st_spec_of k) e = true \/ st_any_costb (st_spec_of k) e = true) /\
-                     exists kv, st_eval (st_spec_of k) e = ROk kv)
-           (st_reached (st_spec_of k) (st_applied k s o)).
+    Forall (fun e => st_listedb (st_spec_of k) e = true /\ exists kv, st_eval (st_spec_of k) e = ROk kv) (st_applied k s o).
 Proof. exact st_step_ok_accepted. Qed.
-Print Assumptions C48_only_listed_partial.
-
-(* outside the trigger of A the loop reaches every entry: only faucetsc and vestingsc return early *)
-Theorem C48_loop_reaches_every_entry :
-  forall k es, k <> KFaucet -> k <> KVesting -> st_reached (st_spec_of k) es = es.
-Proof. exact st_reached_all_contract. Qed.
-Print Assumptions C48_loop_reaches_every_entry.
-
-(* B holds in full for the four entry points without the "any cost.* key" branch *)
-Theorem C48_only_listed_globals_faucet_vesting_zcn :
-  forall k env s o s', k <> KMiner -> k <> KStorage -> st_step k env s o = (s', OutOk) ->
-    Forall (fun e => st_listedb (st_spec_of k) e = true /\ exists kv, st_eval (st_spec_of k) e = ROk kv)
-           (st_reached (st_spec_of k) (st_applied k s o)).
-Proof. exact st_step_ok_listed. Qed.
-Print Assumptions C48_only_listed_globals_faucet_vesting_zcn.
+Print Assumptions C48_every_entry_checked_and_listed.
 
 (* storagesc applies the merged pending map; every entry of the request is part of it *)
 Theorem C48_storage_request_is_applied :
@@ -75,74 +36,24 @@ Theorem C48_storage_request_is_applied :
 Proof. exact st_merge_in. Qed.
 Print Assumptions C48_storage_request_is_applied.
 
-(* 4. valid after update. Full statement: from a valid node every successful operation gives a valid node. *)
-Definition C48_valid_after_update_full_statement : Prop :=
+(* 4. valid after update: from a valid node every successful operation of every contract gives a valid node *)
+Theorem C48_valid_after_update :
   forall k env s o s', st_valid_of k (g_conf s) = true -> st_step k env s o = (s', OutOk) -> st_valid_of k (g_conf s') = true.
-
-(* refuted twice: vestingsc never validates; storagesc update_settings saves unvalidated once "demeter" is active *)
-Theorem C48_valid_after_update_refuted_vesting : ~ C48_valid_after_update_full_statement.
-Proof. exact sw_refute_valid_vesting. Qed.
-Print Assumptions C48_valid_after_update_refuted_vesting.
-
-Theorem C48_valid_after_update_refuted_storage_demeter : ~ C48_valid_after_update_full_statement.
-Proof. exact sw_refute_valid_storage_demeter. Qed.
-Print Assumptions C48_valid_after_update_refuted_storage_demeter.
-
-Theorem C48_valid_after_update_partial :
-  forall k env s o s',
-    st_valid_of k (g_conf s) = true -> st_step k env s o = (s', OutOk) ->
-    k <> KVesting -> ~ (k = KStorage /\ env_demeter env = true /\ st_is_update o = true) ->
-    st_valid_of k (g_conf s') = true.
 Proof. exact st_valid_after. Qed.
-Print Assumptions C48_valid_after_update_partial.
+Print Assumptions C48_valid_after_update.
 
-(* 5. same on every node: the update loops range over a Go map, so the list order is arbitrary.
-   Full statement: for distinct request keys every order gives the same outcome. *)
-Definition C48_same_on_every_node_full_statement : Prop :=
-  forall k s es1 es2, Permutation es1 es2 -> NoDup (map e_key es1) ->
-    st_res_same (st_update (st_spec_of k) s es1) (st_update (st_spec_of k) s es2).
-
-(* refuted: two distinct keys may name one setting (storagesc trims keys; faucetsc/vestingsc lower-case cost keys) *)
-Theorem C48_same_on_every_node_refuted : ~ C48_same_on_every_node_full_statement.
-Proof. exact sw_refute_same_on_every_node. Qed.
-Print Assumptions C48_same_on_every_node_refuted.
-
-(* refuted a second way: even with distinct settings, a cost key in faucetsc/vestingsc cuts the request short *)
-Theorem C48_same_on_every_node_refuted_cost_key :
-  NoDup (map (st_skey (st_spec_of KFaucet)) sw_cost_then_valid) /\
-  ~ st_res_same (st_update (st_spec_of KFaucet) (g_conf sw_faucet) sw_cost_then_valid)
-                (st_update (st_spec_of KFaucet) (g_conf sw_faucet) sw_valid_then_cost).
-Proof. exact (proj2 (proj2 sw_cost_ends_loop)). Qed.
-Print Assumptions C48_same_on_every_node_refuted_cost_key.
-
-(* partial: when no two request entries assign the same setting and no entry ends the loop *)
-Theorem C48_same_on_every_node_partial :
-  forall sp s es1 es2, Permutation es1 es2 -> NoDup (map (st_skey sp) es1) ->
-    forallb (fun e => negb (st_terminal sp e)) es1 = true ->
-    st_res_same (st_update sp s es1) (st_update sp s es2).
+(* 5. same on every node: the update loops visit the request in sorted key order, so the outcome (error or new
+   settings) is a function of the request - a Go map, i.e. distinct keys - and not of its iteration order *)
+Theorem C48_same_on_every_node :
+  forall sp s es1 es2, Permutation es1 es2 -> NoDup (map e_key es1) -> st_update sp s es1 = st_update sp s es2.
 Proof. exact st_update_perm. Qed.
-Print Assumptions C48_same_on_every_node_partial.
+Print Assumptions C48_same_on_every_node.
 
-(* 6. unparsable values are rejected, not fatal. Full statement: no operation panics. *)
-Definition C48_no_panic_full_statement : Prop :=
-  forall k env s o, snd (st_step k env s o) <> OutPanic.
-
-Theorem C48_no_panic_refuted : ~ C48_no_panic_full_statement.
-Proof. exact sw_refute_no_panic. Qed.
-Print Assumptions C48_no_panic_refuted.
-
-(* partial: globals never panic (every type in the generated table is supported by StringToInterface);
-   the contracts panic only through currency.ParseZCN on a non-finite float *)
-Theorem C48_globals_update_never_panics :
-  forall env s o, snd (st_step KGlobals env s o) <> OutPanic.
-Proof. exact st_globals_never_panics. Qed.
-Print Assumptions C48_globals_update_never_panics.
-
-Theorem C48_no_panic_partial :
-  forall sp es s, sp_globals sp = false ->
-    (forall e, In e es -> po_zcn (e_po e) <> ZcnPanic) -> st_update sp s es <> RPanic.
-Proof. exact st_update_contract_no_panic. Qed.
-Print Assumptions C48_no_panic_partial.
+(* 6. unparsable values are rejected, never fatal: no operation of any contract panics (for the chain globals
+   because every type in the generated table is supported by StringToInterface) *)
+Theorem C48_no_panic : forall k env s o, snd (st_step k env s o) <> OutPanic.
+Proof. exact st_step_never_panics. Qed.
+Print Assumptions C48_no_panic.
 
 (* Non-vacuity: a run over the generated minersc table with an accepted change, a non-owner,
    an unknown key, an inconsistent value (max_n < min_n) and an unparsable value. *)
@@ -153,12 +64,41 @@ Example C48_example :
   st_get (g_conf s) "max_s" = Some (SvZ 2).
 Proof. exact sw_run_example. Qed.
 
-Example C48_example_cost_alias :
-  ~ st_res_same (st_update (st_spec_of KFaucet) (g_conf sw_faucet) sw_calias1)
-                (st_update (st_spec_of KFaucet) (g_conf sw_faucet) sw_calias2).
-Proof. exact sw_cost_alias_order_dependent. Qed.
+(* the former triggers, now refused or order independent *)
+Example C48_example_unknown_cost_refused :
+  snd (st_step KMiner sw_env sw_miner (OpUpdate (sw_txn [sw_ent "cost.bogus" "5" (sw_po_int 5)]))) = OutReject /\
+  snd (st_step KStorage sw_env sw_storage (OpUpdate (sw_txn [sw_ent "cost.bogus" "5" (sw_po_int 5)]))) = OutReject /\
+  snd (st_step KMiner sw_env sw_miner (OpUpdate (sw_txn [sw_ent "cost.add_miner" "5" (sw_po_int 5)]))) = OutOk.
+Proof. exact sw_unknown_cost_refused. Qed.
+
+Example C48_example_vesting_validates :
+  st_valid_of KVesting (g_conf sw_vesting) = true /\
+  st_step KVesting sw_env sw_vesting (OpUpdate (sw_txn [sw_ent "max_destinations" "0" (sw_po_int 0)])) = (sw_vesting, OutReject).
+Proof. exact sw_vesting_invalid_refused. Qed.
+
+Example C48_example_storage_demeter_validates :
+  st_valid_of KStorage (g_conf sw_storage) = true /\
+  st_step KStorage sw_env_demeter sw_storage (OpUpdate (sw_txn [sw_ent "max_delegates" "0" (sw_po_int 0)])) = (sw_storage, OutReject).
+Proof. exact sw_storage_demeter_invalid_refused. Qed.
 
 Example C48_example_commit_validates :
   let s1 := fst (st_step KStorage sw_env sw_storage (OpUpdate (sw_txn [sw_ent "max_delegates" "0" (sw_po_int 0)]))) in
   g_conf s1 = g_conf sw_storage /\ snd (st_step KStorage sw_env s1 OpCommit) = OutReject.
 Proof. exact sw_storage_commit_validates. Qed.
+
+Example C48_example_cost_key_does_not_end_loop :
+  snd (st_step KFaucet sw_env sw_faucet (OpUpdate (sw_txn sw_cost_then_unknown))) = OutReject /\
+  st_update (st_spec_of KFaucet) (g_conf sw_faucet) sw_cost_then_valid = st_update (st_spec_of KFaucet) (g_conf sw_faucet) sw_valid_then_cost /\
+  (match st_update (st_spec_of KFaucet) (g_conf sw_faucet) sw_cost_then_valid with
+   | ROk c => st_get c "pour_amount" = Some (SvZ 20000000000) /\ st_get c "cost.pour" = Some (SvZ 5)
+   | _ => False end).
+Proof. exact sw_cost_key_does_not_end_loop. Qed.
+
+Example C48_example_aliases :
+  st_update (st_spec_of KStorage) (g_conf sw_storage) sw_alias1 = RReject /\
+  st_update (st_spec_of KStorage) (g_conf sw_storage) sw_alias2 = RReject.
+Proof. exact sw_alias_refused. Qed.
+
+Example C48_example_nan_refused :
+  st_step KMiner sw_env sw_miner (OpUpdate (sw_txn [sw_ent "min_stake" "NaN" sw_po_nan])) = (sw_miner, OutReject).
+Proof. exact sw_nan_refused. Qed.
